@@ -10,7 +10,7 @@ from engine.dataflow import ReachingDefs, target_names, assigned_value
 from engine.srcmodel import walk_shallow, norm, parent, set_parents
 from engine.util import call_name, contains, get_method, in_body, fstring_template
 from ._c01_util import (bound_by_inner_scope, loads, load_ids, strip_wrappers, bounded_paths, branch_outcome,
-                        membership_facts, read_reserved, literal_pieces, alias_root, AliasRoot, list_shapes, LVal, Scalar, Delegate)
+                        membership_facts, read_reserved, literal_pieces, alias_root, list_shapes, LVal, Scalar, Delegate)
 
 PROPERTY = "C01"
 IR = "pyrates/ir/circuit.py"
@@ -27,7 +27,9 @@ EXPLANATION = (
     "R2 every element store into a numpy.zeros array inside a loop over zip(index lists, weights) in pyrates/ir/circuit.py whose "
     "index derives from the zipped elements accumulates (`+=`) unless a dominating test raises on duplicate index tuples "
     "(parallel edges are legal input, D-2).  "
-    "R3 the record-grouping in NetworkGraph._collect_from_edges: a field that the consumer _generate_edge_equation uses as one "
+    "R3 the record-grouping in NetworkGraph._collect_from_edges (recognised by role: a dict keyed per record, groups created by "
+    "`if k not in d: d[k] = {}` / setdefault / defaultdict, fields merged directly, through an alias of the group or by a "
+    "private helper that receives the group): a field that the consumer _generate_edge_equation uses as one "
     "string (`group[field].split(...)`) must be determined by the grouping key, by a pre-grouping of the caller, or the merge must "
     "raise on a second distinct value (D-3, still present).  "
     "R4 ComputeGraph._generate_unique_label: on every path (loops unrolled) the returned name has been tested not to be in the name "
@@ -36,7 +38,11 @@ EXPLANATION = (
     "(the time singleton `t`, or a name containing a sub-string that check_vname reserves) (D-4).  "
     "R6 in to_func and get_jacobian_func the returned argument values and argument names are produced by one iteration over one "
     "list: one value per name, each value get_var(<that name>), skipped names are exactly the seeded leading entries t, state "
-    "vector, hist, and every generate_func_head implementation returns that prefix in that order.  "
+    "vector, hist, and every generate_func_head implementation returns that prefix in that order.  The value list is read as "
+    "`seeds, then one pass over the name list` whatever its spelling (for loop, enumerate / index loop, comprehension handed to "
+    "extend / += / the initial value, `continue`-style skips, == / != / in / not in tests, a private helper that builds the "
+    "list); the head prefix is decided by abstract execution of every path of each implementation (known leading entries of the "
+    "returned list vs. the truth value of add_hist_func; conditional expressions, early returns and private helpers included).  "
     "R7 every plain store into an existing operator's input table (`inputs = op['inputs']; inputs[var] = {'sources': …}`, also "
     "`inputs[var]['sources'] = …`) in pyrates/ir/circuit.py lies on the branch of a dominating membership test where the "
     "variable has no entry yet, so registering an edge operator or a delay buffer never drops the same-node sources that "
@@ -1456,17 +1462,29 @@ def _head_prefix_contract(ctx, rid):
             flag = store.get("add_hist_func")
             if not isinstance(flag, Scalar):
                 raise AnalysisError(f"{rid}: {m.qual}: `add_hist_func` is re-bound to a list (unrecognised)")
-            verdicts.append((bool(hist_pos), facts.get(flag.key) if not flag.is_const else bool(flag.const), repr(v)))
+            fact = facts.get(flag.key) if not flag.is_const else bool(flag.const)
+            if not flag.is_const and facts.get(flag.key + "∅") is True:
+                fact = None             # the flag is None on this path: the backend-level default decides (resolved below)
+            verdicts.append((bool(hist_pos), fact, repr(v), facts))
+        # the flag was not given (`add_hist_func is None`): the backend-level default decides — the one attribute of self whose
+        # truth value was branched on and agrees with the presence of 'hist' on every such path
+        open_ = [x for x in verdicts if x[1] is None and x[3].get("add_hist_func∅") is True]
+        if open_ and m.self_name:
+            keys = set.intersection(*[{k for k in x[3] if k.startswith(m.self_name + ".") and not k.endswith("∅")} for x in open_])
+            keys = {k for k in keys if all(x[3][k] == x[0] for x in open_)}
+            if len(keys) == 1 and len({x[0] for x in open_}) == 2:
+                verdicts = [x if x not in open_ else (x[0], x[0], x[2], x[3]) for x in verdicts]
+        verdicts = [x[:3] for x in verdicts]
+        for has_hist, fact, txt in verdicts:
+            if fact is not None and has_hist != fact:
+                problems.append(f"with add_hist_func {'true' if fact else 'false'} the returned list is {txt}")
         undecided = [x for x in verdicts if x[1] is None]
-        if undecided:
+        if undecided and not problems:
             if len({h for h, _f, _v in verdicts}) == 1:
                 problems.append(f"'hist' is {'always' if verdicts[0][0] else 'never'} part of the returned list, whatever add_hist_func says")
             else:
                 raise AnalysisError(f"{rid}: {m.qual}: whether 'hist' is part of the returned list is not decided by a recognised test "
                                     f"of add_hist_func ({undecided[0][2]})")
-        for has_hist, fact, txt in verdicts:
-            if fact is not None and has_hist != fact:
-                problems.append(f"with add_hist_func {'true' if fact else 'false'} the returned list is {txt}")
         problems = sorted(set(problems))
         if problems:
             out.append((m, r, False, "; ".join(problems)))
@@ -1547,19 +1565,22 @@ def r6_names_and_values_from_one_iteration(ctx, rid):
         # ---- the pass iterates the returned name list itself
         iroot = _copy_root(ctx, vf, it.it)
         inner_names: Set[str] = set()
-        if site is not None and isinstance(iroot.expr, ast.Name) and iroot.defstmt is None and iroot.expr.id in binding:
-            inner_names = set(iroot.names)
-            iroot = _copy_root(ctx, f, binding[iroot.expr.id])
-        elif site is not None:
-            iroot = AliasRoot(iroot.expr, [], None, None, False) if not isinstance(iroot.expr, ast.Name) else \
-                AliasRoot(ast.Constant(value=None), [], None, None, False)
-        same = isinstance(iroot.expr, ast.Name) and iroot.defstmt is ndef
+        if site is not None:
+            # inside a helper the list must be the parameter that the caller binds to the name list
+            if isinstance(iroot.expr, ast.Name) and iroot.defstmt is None and iroot.expr.id in binding:
+                inner_names = set(iroot.names)
+                iroot = _copy_root(ctx, f, binding[iroot.expr.id])
+                same = isinstance(iroot.expr, ast.Name) and iroot.defstmt is ndef
+            else:
+                same = False
+        else:
+            same = isinstance(iroot.expr, ast.Name) and iroot.defstmt is ndef
         if not same:
             ctx.violation(rid, f, L, f"the argument values are collected by `{norm(it.node)}` but the names returned to the user are `{N}` "
                                      f"(= {norm(ndef)}): values and names do not come from one iteration of one list, so value k "
                                      f"need not belong to name k", facts, label="one list for names and values")
             continue
-        n_names |= set(iroot.names)
+        n_names |= set(iroot.names) if same else set()
         # no mutation / re-binding of N between its definition and the return
         nm_muts = [n for n in walk_shallow(f.node)
                    if (isinstance(n, ast.Call) and isinstance(n.func, ast.Attribute) and isinstance(n.func.value, ast.Name)
@@ -1758,6 +1779,25 @@ def r7_source_registration_accumulates(ctx, rid):
                             same = all(rd.defs_reaching_at(d, x) == rd.defs_reaching_at(cfg_st, x) for x in (ktxt, I.id))
                             if same:
                                 absent = d
+                if absent is None:
+                    # `try: I[k]… except KeyError: I[k] = …` — the handler runs only when the entry is missing
+                    for h in [a for a in _anc(st) if isinstance(a, ast.ExceptHandler)]:
+                        t = parent(h)
+                        catches = [h.type] if not isinstance(h.type, ast.Tuple) else list(h.type.elts)
+                        if isinstance(t, ast.Try) and len(catches) == 1 and isinstance(catches[0], ast.Name) and catches[0].id == "KeyError":
+                            reads = [n for b in t.body for n in ast.walk(b) if isinstance(n, ast.Subscript) and isinstance(n.value, ast.Name)
+                                     and n.value.id == I.id and ast.unparse(n.slice) == ktxt and isinstance(n.ctx, ast.Load)]
+                            other = [n for b in t.body for n in ast.walk(b) if isinstance(n, ast.Subscript) and n not in reads
+                                     and not any(n is r or contains(r, n) or contains(n, r) for r in reads)]
+                            if reads and not other:
+                                absent = t
+                if absent is None:
+                    undecided = [d for d in cfg.dominators(cfg_st) if isinstance(d, (ast.If, ast.While)) and d is not cfg_st
+                                 and {ktxt, I.id} <= load_ids(d.test) | {ast.unparse(n) for n in ast.walk(d.test) if isinstance(n, ast.expr)}
+                                 and not membership_facts(d.test, True) and not membership_facts(d.test, False)]
+                    if undecided:
+                        raise AnalysisError(f"{rid}: {f.qual}: `{norm(st)}` is guarded by `{norm(undecided[0])}`, a test of `{ktxt}` against "
+                                            f"`{I.id}` in an unrecognised form")
                 if absent is not None:
                     facts["guard"] = norm(absent)
                     ctx.ok(rid, f, st, f"`{norm(st)}` creates the entry only on the branch where `{ktxt}` is not yet in the operator's "
